@@ -128,7 +128,10 @@ func c12GenSubCfg(r *rand.Rand, idx int, dir string) *c12SubCfg {
 			if r.Intn(12) == 0 {
 				n4 = 0 // a group without v4: requests landing there are refused by the registrar
 			}
-			n6 := r.Intn(3)
+			n6 := 1 + r.Intn(2)
+			if r.Intn(8) == 0 {
+				n6 = 0 // a group without v6: v6 requests landing there are refused by the registrar
+			}
 			if n4 == 0 && n6 == 0 {
 				n6 = 1
 			}
@@ -237,7 +240,6 @@ func c12GenRegCfg(r *rand.Rand, idx int, sc *c12SubCfg) *c12RegCfg {
 	}
 	counts := []int{0, 1, 2, 3, 3, 4}
 	nMin, nPre := counts[r.Intn(len(counts))], counts[r.Intn(len(counts))]
-	type ent struct{ s string }
 	var ents []string
 	for i := 0; i < nMin; i++ {
 		w := c12Weight(r)
@@ -982,8 +984,10 @@ func (m *c12Mon) run(q *c12Req) (accepted, substituted bool) {
 		if resp.GetTransportParams() != nil && !disabled {
 			pm, err := resp.GetTransportParams().UnmarshalNew()
 			expParams, expErr = pm, err
+		} else if tr := m.trs[tt]; tr != nil {
+			expParams, expErr = tr.ParseParams(lv, proto.Clone(c2s.GetTransportParams()).(*anypb.Any))
 		} else {
-			expParams, expErr = m.trs[tt].ParseParams(lv, proto.Clone(c2s.GetTransportParams()).(*anypb.Any))
+			expErr = fmt.Errorf("no reference parser for transport %v", tt)
 		}
 		for _, reg := range regs {
 			if reg == nil {
@@ -1175,8 +1179,8 @@ func TestVerifC12(t *testing.T) {
 	met := metrics.NewMetrics(logrus.NewEntry(lg), 24*time.Hour)
 	stationlog.SetLevel(stationlog.InfoLevel) // least verbose level of the station's logger
 
-	nSub := kit.Tier(4, 12)
-	nReg := kit.Tier(8, 40)
+	nSub := kit.Tier(4, 16)
+	nReg := kit.Tier(8, 60)
 	nGeneral := kit.Tier(150, 330)
 	const wantSubst = 420
 	const focusCap = 2600
@@ -1220,9 +1224,12 @@ func TestVerifC12(t *testing.T) {
 			rp, snd := rc.build(t, r, met)
 			rec.Distinct("registrar_configs", rc.Toml, rc.Auth, rc.Override, rc.OvrFile)
 			m := &c12Mon{t: t, rec: rec, sc: sc, rc: rc, rp: rp, snd: snd, trs: trs, tal: map[pb.TransportType]*c12Tally{}}
+			// requests come from a PRNG of their own, so that the sequence of configurations does not depend on how many
+			// distribution trials the (crypto/rand-driven) code under test happened to need
+			rq := rand.New(rand.NewSource(r.Int63()))
 
 			for i := 0; i < nGeneral; i++ {
-				m.run(c12GenReq(r, sc, "general"))
+				m.run(c12GenReq(rq, sc, "general"))
 			}
 			// distribution trials: only where a weighted choice exists and can be observed
 			if rc.conf.EnforceSubnetOverrides {
@@ -1244,7 +1251,7 @@ func TestVerifC12(t *testing.T) {
 								break // (nearly) everything is excluded or refused here: no distribution verdict
 							}
 						}
-						m.run(c12GenReq(r, sc, f.kind))
+						m.run(c12GenReq(rq, sc, f.kind))
 						rec.Count("distribution_trials", 1)
 					}
 				}
